@@ -18,7 +18,7 @@ func (t *saslAuthenticateRequestV0) readFrom(r *bufio.Reader, sz int) (remain in
 }
 
 func (t saslAuthenticateRequestV0) writeTo(wb *writeBuffer) {
-	wb.writeBytes(t.Data)
+	wb.writeNonNullBytes(t.Data)
 }
 
 type saslAuthenticateResponseV0 struct {
